@@ -471,7 +471,7 @@ pub fn run(ctx: &mut Ctx, fl: Flags) {
         run_history(ctx, &ops, (b'k', sig as u8), &fl, "signal");
     });
     // random histories
-    let n = ctx.n(500, 10_000);
+    let n = ctx.n(3000, 10_000);
     ctx.family("histories", n, |ctx, rng, i| {
         let ops = gen_history(rng);
         let how = if rng.chance(700) { (b'x', rng.below(256) as u8) } else {
